@@ -5,6 +5,8 @@ package trzsz
 // width 5..500; C: the callback state machine over arbitrary int64 arguments (every render sees 0 <= step <= size);
 // D: the bar for every length and every valid (step, size). Float expressions are replaced by a contract stub.
 
+import "strconv"
+
 type zzSink20 struct{ data []byte }
 
 func (s *zzSink20) Write(p []byte) (int, error) {
@@ -118,4 +120,79 @@ func zzH_C20_state() {
 		}
 	}
 	verifReach("state")
+}
+
+
+type zzChunks20 struct{ chunks [][]byte }
+
+func (s *zzChunks20) Write(p []byte) (int, error) {
+	c := make([]byte, len(p))
+	copy(c, p)
+	s.chunks = append(s.chunks, c)
+	return len(p), nil
+}
+
+// the number printed in front of the first '%' of a rendered line
+func zzPercent20(line []byte) (int64, bool) {
+	i := 0
+	for i < len(line) && line[i] != '%' {
+		i++
+	}
+	if i >= len(line) {
+		return 0, false
+	}
+	j := i
+	for j > 0 && line[j-1] != ' ' && line[j-1] != '\r' {
+		j--
+	}
+	v, err := strconv.ParseInt(string(line[j:i]), 10, 64)
+	return v, err == nil
+}
+
+// E — the percentage of the REAL rendering (showProgress is executed, not stubbed): for every size 1..2^62 and every
+// non-decreasing sequence of positions within the file, each line drawn shows a percentage within 0..100 that does not
+// decrease, and the final line shows 100. Columns 5..13, so that the line is just the percentage (no bar, no name).
+// The float expressions on the way are contract stubs (§ DESIGN): what is decided exactly is any integer arithmetic
+// in the percentage, the throttle, the position bookkeeping, and the text assembly.
+func zzH_C20_percent() {
+	sink := &zzChunks20{}
+	p := newTextProgressBar(sink, int32(verifNondetRange(5, 13)), 0, "", "")
+	p.onNum(1)
+	p.onName("f")
+	size := int64(verifNondetInt())
+	verifAssume(size >= 1)
+	verifAssume(size <= 1<<62)
+	p.onSize(size)
+	lastStep, lastPct := int64(0), int64(0)
+	check := func(final bool) {
+		line := sink.chunks[len(sink.chunks)-1]
+		pct, ok := zzPercent20(line)
+		verifAssert(ok, "no percentage in the rendered line")
+		verifAssert(pct >= 0, "negative percentage")
+		verifAssert(pct <= 100, "percentage above 100")
+		verifAssert(pct >= lastPct, "percentage decreased within a file")
+		if final {
+			verifAssert(pct == 100, "a completed file is not shown as 100%")
+		}
+		lastPct = pct
+		verifReach("percent")
+	}
+	for k := 0; k < verifBound("CALLS"); k++ {
+		step := int64(verifNondetInt())
+		verifAssume(step >= lastStep)
+		verifAssume(step <= size)
+		lastStep = step
+		verifAdvanceTime() // beyond the redraw throttle
+		n := len(sink.chunks)
+		p.onStep(step)
+		if len(sink.chunks) > n {
+			check(false)
+		}
+	}
+	n := len(sink.chunks)
+	p.onDone()
+	verifAssert(len(sink.chunks) > n, "completion not rendered")
+	if len(sink.chunks) > n {
+		check(true)
+	}
 }
